@@ -110,8 +110,8 @@ def defineProp (prop d : MProp) : Option (Option MProp) :=
         | .nil => prop.value
         | .gs g s => .gs (normSlot g) (normSlot s)
         | v => v
-      let d' : MProp := ⟨dvalue, d.mode⟩
-      let mode1 := Mode.ofNat (mergeMode d.mode.toNat prop.mode.toNat d'.isDataDescriptor)
+      let staysData := match value1 with | .val _ => true | _ => false
+      let mode1 := Mode.ofNat (mergeMode d.mode.toNat prop.mode.toNat staysData)
       some (some ⟨value1, mode1⟩)
 
 /-- §8.12.9 steps 5-13 on one existing property, same result convention -/
@@ -176,15 +176,6 @@ theorem sDefineOwn_eq (o : SObj) (n : Name) (d : PD) :
       cases h4 : (!cur.configurable && (match d.enumerable with | some e => e != cur.enumerable | none => false)) <;>
       cases h5 : validate cur d <;> simp
 
-/-- the two single-property deviation regions (same predicates as Driver.devGenericAt / devAccToDataAt) -/
-def devG (prop d : MProp) : Bool :=
-  (match prop.value with | .val _ => true | _ => false) && prop.writable &&
-    d.isGenericDescriptor && !d.isEmpty && (defineProp prop d).isSome
-
-def devA2D (prop d : MProp) : Bool :=
-  (match prop.value with | .gs _ _ => true | _ => false) &&
-    d.isDataDescriptor && (match d.value with | .nil => true | _ => false) && (defineProp prop d).isSome
-
 /-- well-formed stored property: a value or a normalised getter/setter pair whose write trit is unset -/
 def WFProp (p : MProp) : Prop :=
   match p.value with
@@ -209,12 +200,11 @@ open OttoVerif.C07 OttoVerif.C07.Spec OttoVerif.C07.Driver OttoVerif.C07.Lem
 
 /-- the single-property refinement statement -/
 def PropGoal (prop d : MProp) : Prop :=
-  devG prop d = false → devA2D prop d = false →
    (defineProp prop d).map (fun r => absProp (r.getD prop))
    = (sDefineProp (absProp prop) (absDesc d)).map (fun r => r.getD (absProp prop))
 
 macro "unfold_model" : tactic => `(tactic|
-  simp only [PropGoal, devG, devA2D, defineProp, defineSwitch, MProp.isEmpty, MProp.isGenericDescriptor, MProp.isDataDescriptor,
+  simp only [PropGoal, defineProp, defineSwitch, MProp.isEmpty, MProp.isGenericDescriptor, MProp.isDataDescriptor,
     MProp.isAccessorDescriptor, writable_eq, writeSet_eq, enumerable_eq, enumerateSet_eq, configurable_eq, mode222_eq, mergeMode_eq])
 
 theorem fieldSame_none {α} [DecidableEq α] (c : Option α) : fieldSame none c = true := rfl
@@ -229,7 +219,7 @@ macro "unfold_spec" : tactic => `(tactic|
      Option.isSome, Option.isNone, Option.getD, slotField, slotFn, normSlot])
 
 macro "trits" : tactic => `(tactic|
-  (intro h1 h2 <;> first | rfl | exact Bool.noConfusion h1 | exact Bool.noConfusion h2))
+  (first | rfl))
 
 theorem neqForms {α} [DecidableEq α] {a b : α} (h : a ≠ b) :
    (a != b) = true ∧ (b != a) = true ∧ (a == b) = false ∧ (b == a) = false ∧
@@ -333,7 +323,7 @@ theorem dslot_slotField (g : Slot) : dslot (slotField g) = g := by cases g <;> r
 
 /-- **[[DefineOwnProperty]] on an existing property** (object_class.go:337-441 vs §8.12.9 steps 5-13):
     for EVERY well-formed stored property and EVERY descriptor `toPropertyDescriptor` can produce,
-    outside the two single-property deviation regions otto rejects exactly when ES5 rejects and
+    otto rejects exactly when ES5 rejects (no region excluded since the `fix:` commits) and
     the property written has exactly the ES5 attributes. -/
 theorem defineProp_refines (prop d : MProp) (hp : WFProp prop) (hd : WFDesc d) : PropGoal prop d := by
   obtain ⟨pval, ⟨pw, pe, pc⟩⟩ := prop
@@ -365,7 +355,7 @@ theorem defineProp_refines (prop d : MProp) (hp : WFProp prop) (hd : WFDesc d) :
       rw [pslot_slotFn hg, pslot_slotFn hs, dslot_slotField, dslot_slotField] at this
       exact this
 
-/-! ## well-formedness is preserved by [[DefineOwnProperty]] outside `acc_to_data_keeps_accessor` -/
+/-! ## well-formedness is preserved by [[DefineOwnProperty]] -/
 
 /-- Boolean form of `WFProp` -/
 def wfb (p : MProp) : Bool :=
@@ -383,14 +373,14 @@ theorem wfb_iff (p : MProp) : wfb p = true ↔ WFProp p := by
   | gs g s => cases g <;> cases s <;> cases w <;> simp [wfb, WFProp]
 
 def WFGoal (prop d : MProp) : Prop :=
-  devA2D prop d = false → (match defineProp prop d with | some (some p) => wfb p | _ => true) = true
+  (match defineProp prop d with | some (some p) => wfb p | _ => true) = true
 
 macro "unfold_wf" : tactic => `(tactic|
-  simp only [WFGoal, devA2D, defineProp, defineSwitch, MProp.isEmpty, MProp.isGenericDescriptor, MProp.isDataDescriptor,
+  simp only [WFGoal, defineProp, defineSwitch, MProp.isEmpty, MProp.isGenericDescriptor, MProp.isDataDescriptor,
     MProp.isAccessorDescriptor, writable_eq, writeSet_eq, enumerable_eq, enumerateSet_eq, configurable_eq, mode222_eq, mergeMode_eq,
     normSlot])
 
-macro "trits1" : tactic => `(tactic| (intro h1 <;> first | rfl | exact Bool.noConfusion h1))
+macro "trits1" : tactic => `(tactic| (first | rfl))
 
 set_option maxHeartbeats 2000000 in
 theorem wfVN (pv : Val) (pw pe pc dw de dc : Trit) : WFGoal ⟨.val pv, ⟨pw,pe,pc⟩⟩ ⟨.nil, ⟨dw,de,dc⟩⟩ := by
@@ -460,8 +450,8 @@ theorem WFDesc.weak {d : MProp} (h : WFDesc d) : WFDescW d := by
   | val v => trivial
 
 /-- an accepted redefinition of a well-formed property by a well-formed descriptor writes a
-    well-formed property, outside `acc_to_data_keeps_accessor` -/
-theorem defineProp_wf (prop d p : MProp) (hp : WFProp prop) (hd : WFDescW d) (hdev : devA2D prop d = false)
+    well-formed property -/
+theorem defineProp_wf (prop d p : MProp) (hp : WFProp prop) (hd : WFDescW d)
     (h : defineProp prop d = some (some p)) : WFProp p := by
   have key : WFGoal prop d := by
     obtain ⟨pval, ⟨pw, pe, pc⟩⟩ := prop
@@ -489,7 +479,8 @@ theorem defineProp_wf (prop d p : MProp) (hp : WFProp prop) (hd : WFDescW d) (hd
         have := wfGG (slotFn pg) (slotFn ps) (slotField dg) (slotField ds) pe pc de dc
         rw [pslot_slotFn hg, pslot_slotFn hs, dslot_slotField, dslot_slotField] at this
         exact this
-  have := key hdev
+  have := key
+  simp only [WFGoal] at this
   rw [h] at this
   exact (wfb_iff p).1 this
 
